@@ -90,7 +90,7 @@ func r16_1(c *Ctx, rule string) {
 	// copyDirectory with include=false
 	var incParam *ssa.Parameter
 	for _, p := range f.copyDir.Params {
-		if p.Name() == "include" {
+		if c.P.ParamName(p) == "include" {
 			incParam = p
 		}
 	}
@@ -372,7 +372,7 @@ func r16_5(c *Ctx, rule string) {
 					return false
 				}
 				p, isP := eng.Strip(call.Call.Args[0]).(*ssa.Parameter)
-				return isP && p.Name() == e.param
+				return isP && c.P.ParamName(p) == e.param
 			}, 5) {
 				ok = true
 			}
